@@ -42,14 +42,18 @@ Definition next_channel (bits : Z) (live : list Z) (counter : Z) : option (Z * Z
 
 (* pending: ids reserved by _parse_channel_open and not yet registered, each with a ghost
    count of how far the counter has travelled since the reservation *)
-Record st := mkSt { counter : Z; live : list Z; pending : list (Z * Z) }.
+(* opening: keys of Transport.channel_events — locally opened channels still waiting for the
+   peer's OPEN_SUCCESS / OPEN_FAILURE (open_channel adds the key, the two handlers delete it) *)
+Record st := mkSt { counter : Z; live : list Z; pending : list (Z * Z); opening : list Z }.
 
 Inductive op :=
   | LocalOpen                 (* open_channel: _next_channel + _channels.put, one section *)
   | PeerReserve               (* _parse_channel_open, first section: _next_channel *)
   | PeerRegister (p : Z)      (* _parse_channel_open, second section: _channels.put(p) *)
   | PeerReject (p : Z)        (* the server refused: the reserved id is dropped *)
-  | Close (x : Z).            (* _unlink_channel: _channels.delete(x) *)
+  | Close (x : Z)             (* _unlink_channel: _channels.delete(x) (Channel._handle_close / _unlink) *)
+  | OpenSuccess (x : Z)       (* _parse_channel_open_success: the map is not touched *)
+  | OpenFailure (x : Z).      (* _parse_channel_open_failure: delete(x) only if x is still opening *)
 
 Definition travel (d : Z) (pend : list (Z * Z)) : list (Z * Z) :=
   map (fun pt => (fst pt, snd pt + d)) pend.
@@ -76,19 +80,29 @@ Definition step (bits : Z) (s : st) (o : op) : sres :=
   | LocalOpen =>
       match next_channel bits (live s) (counter s) with
       | None => SFuel
-      | Some (x, c', k) => SOk (mkSt c' (x :: live s) (travel (k + 1) (pending s))) x
+      | Some (x, c', k) => SOk (mkSt c' (x :: live s) (travel (k + 1) (pending s)) (x :: opening s)) x
       end
   | PeerReserve =>
       match next_channel bits (live s) (counter s) with
       | None => SFuel
-      | Some (x, c', k) => SOk (mkSt c' (live s) ((x, 0) :: travel (k + 1) (pending s))) x
+      | Some (x, c', k) => SOk (mkSt c' (live s) ((x, 0) :: travel (k + 1) (pending s)) (opening s)) x
       end
   | PeerRegister p =>
       if mem p (pend_ids (pending s))
-      then SOk (mkSt (counter s) (p :: live s) (drop_pending p (pending s))) (-1)
+      then SOk (mkSt (counter s) (p :: live s) (drop_pending p (pending s)) (opening s)) (-1)
       else SOk s (-1)
-  | PeerReject p => SOk (mkSt (counter s) (live s) (drop_pending p (pending s))) (-1)
-  | Close x => SOk (mkSt (counter s) (remove_id x (live s)) (pending s)) (-1)
+  | PeerReject p => SOk (mkSt (counter s) (live s) (drop_pending p (pending s)) (opening s)) (-1)
+  | Close x => SOk (mkSt (counter s) (remove_id x (live s)) (pending s) (opening s)) (-1)
+  | OpenSuccess x =>
+      (* chan = self._channels.get(chanid); if chan is None: return; ...; del channel_events[chanid] *)
+      if mem x (live s)
+      then SOk (mkSt (counter s) (live s) (pending s) (remove_id x (opening s))) (-1)
+      else SOk s (-1)
+  | OpenFailure x =>
+      (* if chanid in self.channel_events: self._channels.delete(chanid); del channel_events[chanid] *)
+      if mem x (opening s)
+      then SOk (mkSt (counter s) (remove_id x (live s)) (pending s) (remove_id x (opening s))) (-1)
+      else SOk s (-1)
   end.
 
 (* the explicit bound of C23_unique: between a reservation and its registration the counter
@@ -110,7 +124,7 @@ Fixpoint run (bits : Z) (bounded : bool) (s : st) (ops : list op) (outs : list Z
       end
   end.
 
-Definition init (c0 : Z) : st := mkSt c0 [] [].
+Definition init (c0 : Z) : st := mkSt c0 [] [] [].
 
 (* well-formed state: what C23_unique establishes for every reachable state *)
 Definition in_range (bits x : Z) : Prop := 0 <= x < 2 ^ bits.
@@ -122,7 +136,7 @@ Definition BITS : Z := chan_bits.
    after an earlier wrap-around) *)
 Definition run_history (x : Z * list Z * list op) : list Z :=
   let '(c0, live0, ops) := x in
-  match run BITS false (mkSt c0 live0 []) ops [] with
+  match run BITS false (mkSt c0 live0 [] []) ops [] with
   | None => [99]
-  | Some (s, outs) => 0 :: counter s :: Z.of_nat (length outs) :: outs ++ (-2) :: live s
+  | Some (s, outs) => 0 :: counter s :: Z.of_nat (length outs) :: outs ++ (-2) :: live s ++ (-3) :: opening s
   end.
